@@ -630,3 +630,9 @@ def m_from_id(it, st, callee, args, dest_tid, site):
     if callee.get('def', '').startswith('<T as std::convert::Into<U>>'):
         raise Unsupported('Into::into should resolve to a From impl')
     return [(st, args[0])]
+
+@model("std::array::<impl std::iter::IntoIterator for &'a mut [T; N]>::into_iter", "std::array::<impl std::iter::IntoIterator for &'a [T; N]>::into_iter",
+       "std::array::<impl [T; N]>::iter", "std::array::<impl [T; N]>::iter_mut",
+       doc='iterator over the N elements of an array reference, in order')
+def m_array_into_iter(it, st, callee, args, dest_tid, site):
+    return [(st, Opaque('slice_iter', sl=as_slice(it, st, args[0]), pos=usz(0)))]
